@@ -36,6 +36,7 @@ def main(tier, seed):
     items = dynamic_items(st['accepted_shapes'], seed, 70 if quick else 700)
     items += families.generated(seed + 6, 20 if quick else 200, inputs=2, family='gen6')
     items += fam_tt.template_family(seed, tier)[::4 if quick else 1]
+    items += fam_tt.exit_templates()
     cov = {'static_shapes': st['cases'], 'static_states': st['states'], 'static_accepted': st['accepted'],
            'static_rejected': st['rejected'], 'static_dropped_statements': st['dropped_statements'],
            'static_over_rejections_info': st['over_rejections'], 'static_strata': st['strata']}
